@@ -284,7 +284,7 @@ impl Property for P {
         prop_oneof![3 => from_bytes, 1 => bundle, 6 => receiver, 3 => sender, 2 => export, 1 => derive].boxed()
     }
     fn cases(&self, tier: Tier) -> u32 {
-        tier.pick(6000, 60000)
+        tier.pick(15000, 120000)
     }
     fn sweeps(&self, _tier: Tier) -> Vec<(String, Vec<Case>)> {
         let mut cts = Vec::new();
